@@ -3,7 +3,10 @@
 import json, os, sys
 ROOT = os.path.dirname(os.path.dirname(os.path.abspath(__file__)))
 sys.path.insert(0, ROOT)
-from props import PROPS, NOT_APPLICABLE, HOOK_COMMITS
+from props import PROPS as ALL_PROPS, NOT_APPLICABLE, HOOK_COMMITS
+import props as _props
+HOLD = set(getattr(_props, 'HOLD', []))
+PROPS = {k: v for k, v in ALL_PROPS.items() if k not in HOLD}
 ids = [json.loads(l)["id"] for l in open(os.path.join(ROOT, "properties.jsonl"))]
 checks = []
 for pid in ids:
